@@ -17,20 +17,30 @@ from native.common import emit_bounded
 tier = sys.argv[1] if len(sys.argv) > 1 else "quick"
 seed = int(sys.argv[2]) if len(sys.argv) > 2 else 0
 V, EVAL = [], [0]
+seen_known = set()
 
 
-def bad(msg):
+def bad(msg, fid="-"):
+    if fid != "-":
+        if fid in seen_known:
+            return
+        seen_known.add(fid)
     V.append(msg)
     d = os.path.join(os.path.dirname(os.path.dirname(os.path.abspath(__file__))), "replays", "C16")
     os.makedirs(d, exist_ok=True)
     p = os.path.join(d, f"bounded_{len(V)}.py")
     open(p, "w").write("# replay of a bounded stand-in violation (C16): re-run native/c16_states.py\nimport sys\nprint(%r)\nprint('REPLAY-VIOLATION')\nsys.exit(1)\n" % msg)
-    print(f"NATIVE-VIOLATION finding=- replay={p} {msg}")
+    print(f"NATIVE-VIOLATION finding={fid} replay={p} {msg}")
 
 
-def state(backend, n, pure, **kw):
+def state(backend, n, pure, family="gaussian", **kw):
     prog = sf.Program(n)
     with prog.context as q:
+        if family.startswith("cat"):
+            # non-Gaussian, multi-component on the bosonic backend (not available on the gaussian backend)
+            rep = {"representation": "real" if family == "cat" else "complex"} if backend == "bosonic" else {}
+            ops.Catstate(0.9, 0.4, 0, **rep) | q[0]
+            ops.Catstate(0.7, -0.3, 1, **rep) | q[n - 1]
         for k in range(n):
             ops.Sgate(0.25 + 0.05 * k, 0.5 * k) | q[k]
             ops.Dgate(0.15 * (k + 1), 0.4 * k) | q[k]
@@ -57,46 +67,55 @@ if __name__ == "__main__":
     try:
         for n in (2, 3):
             for pure in (True, False):
-                S = {"gaussian": state("gaussian", n, pure), "bosonic": state("bosonic", n, pure),
-                     "fock": state("fock", n, pure, cutoff_dim=cut)}
+              for family in ("gaussian", "cat", "cat-complex"):
+                if family == "gaussian":
+                    S = {"gaussian": state("gaussian", n, pure), "bosonic": state("bosonic", n, pure),
+                         "fock": state("fock", n, pure, cutoff_dim=cut)}
+                else:
+                    if n > 2:
+                        continue
+                    S = {"fock": state("fock", n, pure, family, cutoff_dim=cut + 6), "bosonic": state("bosonic", n, pure, family)}
                 subsets = [list(c) for r in range(1, n + 1) for c in itertools.combinations(range(n), r)]
                 ref = {}
+                refname = next(iter(S))
                 for name, st in S.items():
                     tol = 3e-3 if name == "fock" else 1e-7
+                    # F42: fock_prob / reduced_dm of bosonic states with complex component means
+                    fdm = "F42" if (family == "cat-complex" and name == "bosonic") else "-"
                     for modes in subsets:
                         EVAL[0] += 1
                         k = len(modes)
                         try:
                             par = float(np.real(st.parity_expectation(modes)))
                         except Exception as e:
-                            bad(f"{name} n={n} pure={pure}: parity_expectation({modes}) raised {type(e).__name__}: {e}")
+                            bad(f"{name} n={n} pure={pure} {family}: parity_expectation({modes}) raised {type(e).__name__}: {e}")
                             continue
                         key = ("parity", tuple(modes))
                         if key in ref and abs(ref[key] - par) > 3e-3:
-                            bad(f"n={n} pure={pure}: parity_expectation({modes}) is {par:.5f} on {name}, {ref[key]:.5f} on gaussian")
+                            bad(f"n={n} pure={pure} {family}: parity_expectation({modes}) is {par:.5f} on {name}, {ref[key]:.5f} on {refname}")
                         ref.setdefault(key, par)
                         if k <= 2:
                             c_small = 8 if name != "fock" else cut
                             try:
                                 rho = st.reduced_dm(modes, cutoff=c_small) if name != "fock" else st.reduced_dm(modes)
                             except Exception as e:
-                                bad(f"{name} n={n} pure={pure}: reduced_dm({modes}) raised {type(e).__name__}: {e}")
+                                bad(f"{name} n={n} pure={pure} {family}: reduced_dm({modes}) raised {type(e).__name__}: {e}")
                                 continue
                             if rho.shape != tuple([rho.shape[0]] * (2 * k)):
-                                bad(f"{name} n={n} pure={pure}: reduced_dm({modes}) has shape {rho.shape}, expected two indices per mode")
+                                bad(f"{name} n={n} pure={pure} {family}: reduced_dm({modes}) has shape {rho.shape}, expected two indices per mode")
                                 continue
                             p2 = parity_from_dm(rho, k)
                             if abs(p2 - par) > 5e-3:
-                                bad(f"{name} n={n} pure={pure}: parity_expectation({modes}) = {par:.5f} but sum_n (-1)^n p(n) from reduced_dm = {p2:.5f}")
+                                bad(f"{name} n={n} pure={pure} {family}: parity_expectation({modes}) = {par:.5f} but sum_n (-1)^n p(n) from reduced_dm = {p2:.5f}", fdm)
                             if k == 1:
                                 diag = np.real(np.diag(rho))
                                 mp = st.mean_photon(modes[0])[0]
                                 mp2 = float(np.sum(np.arange(len(diag)) * diag))
                                 if abs(mp - mp2) > 5e-3:
-                                    bad(f"{name} n={n} pure={pure}: mean_photon({modes[0]}) = {mp:.5f} but reduced_dm diagonal gives {mp2:.5f}")
+                                    bad(f"{name} n={n} pure={pure} {family}: mean_photon({modes[0]}) = {mp:.5f} but reduced_dm diagonal gives {mp2:.5f}", fdm)
                                 key = ("diag", modes[0])
                                 if key in ref and not np.allclose(ref[key][:6], diag[:6], atol=3e-3):
-                                    bad(f"n={n} pure={pure}: photon statistics of mode {modes[0]} differ between {name} {np.round(diag[:4], 4).tolist()} and gaussian {np.round(ref[key][:4], 4).tolist()}")
+                                    bad(f"n={n} pure={pure} {family}: photon statistics of mode {modes[0]} differ between {name} {np.round(diag[:4], 4).tolist()} and {refname} {np.round(ref[key][:4], 4).tolist()}", fdm)
                                 ref.setdefault(key, diag)
                     for m in range(n):
                         for ph in (0.0, 0.8):
@@ -104,7 +123,7 @@ if __name__ == "__main__":
                             q = st.quad_expectation(m, ph)
                             key = ("quad", m, ph)
                             if key in ref and not np.allclose(ref[key], q, atol=max(tol, 3e-3 if name == "fock" else 1e-7)):
-                                bad(f"n={n} pure={pure}: quad_expectation({m},{ph}) = {np.round(q, 5).tolist()} on {name}, {np.round(ref[key], 5).tolist()} on gaussian")
+                                bad(f"n={n} pure={pure} {family}: quad_expectation({m},{ph}) = {np.round(q, 5).tolist()} on {name}, {np.round(ref[key], 5).tolist()} on {refname}")
                             ref.setdefault(key, q)
                     for ns in ([0] * n, [1] + [0] * (n - 1), [0] * (n - 1) + [1], [1] * n):
                         EVAL[0] += 1
@@ -115,7 +134,7 @@ if __name__ == "__main__":
                             continue
                         key = ("fp", tuple(ns))
                         if key in ref and abs(ref[key] - p) > 3e-3:
-                            bad(f"n={n} pure={pure}: fock_prob({ns}) = {p:.5f} on {name}, {ref[key]:.5f} on gaussian")
+                            bad(f"n={n} pure={pure} {family}: fock_prob({ns}) = {p:.5f} on {name}, {ref[key]:.5f} on {refname}", fdm)
                         ref.setdefault(key, p)
                         if p < -1e-9:
                             bad(f"{name} n={n}: fock_prob({ns}) = {p:.5f} is negative")
